@@ -46,6 +46,7 @@ def run_variant(name, patch, strip):
 def main():
     ap = argparse.ArgumentParser()
     ap.add_argument("--only", default=None)
+    ap.add_argument("--names", default=None, help="comma separated exact variant names")
     ap.add_argument("--jobs", type=int, default=4)
     ap.add_argument("--seeded", action="store_true", help="also run /verif/seeded/*/patch.diff")
     ap.add_argument("--json", default=None)
@@ -63,6 +64,9 @@ def main():
                                  {"fires": meta.get("caught_by_expected", [meta["property"]]) if meta.get("caught", True) else [], "kind": "break" if meta.get("caught", True) else "missed"}))
     if args.only:
         variants = [v for v in variants if args.only in v[0]]
+    if args.names:
+        want = set(args.names.split(","))
+        variants = [v for v in variants if v[0] in want]
     bad = 0
     out = {}
     with concurrent.futures.ThreadPoolExecutor(max_workers=args.jobs) as ex:
